@@ -52,6 +52,7 @@ type caseResult struct {
 	Tags       []string // token tags of every step (statistics)
 	Cut        bool     // stopped at a divergence / panic
 	Sanctioned bool     // stopped at the sanctioned keep-wide corner
+	Diverged   bool     // the model was lost at some step (the rest ran on the implementation alone)
 	Final      []string // final observation of the implementation (for cross comparisons)
 	Replies    []byte
 	Events     []string
@@ -61,6 +62,7 @@ type runOpts struct {
 	noModel   bool // implementation only (monitors + panics)
 	probeLock bool
 	keepFinal bool
+	keepGoing bool // after a divergence go on with the implementation alone (panics, monitors)
 }
 
 // segments groups consecutive input items into read scripts.
@@ -258,26 +260,32 @@ func runCase(c *Case, d *driver, opts runOpts) (res caseResult) {
 			}
 			if mo.X != "" {
 				addF(finding{Step: step, Kind: "framing", Clause: "G", Tags: *tags, Detail: mo.X + " " + io.G})
-				res.Cut = true
-				return false
+				useModel = false
+				res.Cut = !opts.keepGoing
+				res.Diverged = true
+				return opts.keepGoing
 			}
 			if projs := diffObs(io, mo); len(projs) > 0 {
+				// from here on the model is out of step: keep running the implementation alone
+				// (panics, wedges and the API monitors still mean something)
+				useModel = false
 				if strings.Contains(*tags, "tK") && strings.Count(*tags, ",") > 0 {
 					// known corner (see known_findings.json, keep-wide-run): a run of several
 					// characters inserted after a wide character; the case ends here
 					res.Sanctioned = true
-					res.Cut = true
+					res.Cut = !opts.keepGoing
 					for _, pr := range []string{"C03", "C08"} {
 						addF(finding{Step: step, Kind: "monitor", Prop: pr, Clause: "keep-wide-run", Tags: *tags,
 							Detail: "a run of several characters written onto the second cell of a wide character (span buffer): the run is inserted after the character as a whole, so its last character may be cut instead of wrapping/pinning, and the outcome depends on how the run was cut into reads"})
 					}
-					return false
+					return opts.keepGoing
 				}
 				addF(finding{Step: step, Kind: "diverge", Clause: strings.Join(projs, "+"), Tags: *tags, Detail: describeDiff(io, mo, projs)})
-				res.Cut = true
+				res.Cut = !opts.keepGoing
+				res.Diverged = true
 				// still run the monitors on this state
 				snapCheckSafe(im, step, *tags, evFrom, wrFrom, &res.Findings)
-				return false
+				return opts.keepGoing
 			}
 		}
 		res.Tags = append(res.Tags, *tags)
